@@ -599,7 +599,9 @@ def history_case(draw, ctx):
         ops = ["shift_y", "shift_y", "scale_y", "scale_y", "scale_y", "smooth", "smooth", "smooth", "trend", "noise",
                "shift_x", "scale_x", "restore_original", "append_one_sample", "append_one_sample", "repeat",
                "truncate_by_index", "truncate_by_value", "normalize_x", "normalize_y"]
-    tf = st.sampled_from([None, None, "default", "default", 0, 0.0])
+    # what is taken after a step: nothing / to_function() / to_function(0) / to_function(s > 0) ("pos", short
+    # series only) / the default to_function() of a NEW Weaver holding copies of the current samples ("new")
+    tf = st.sampled_from([None, None, "default", "default", 0, 0.0] + ([] if is_long else ["pos", "pos", "new", "new"]))
     steps = []
     n = draw(st.integers(3, 8))
     for i in range(n):
@@ -633,10 +635,15 @@ def history_case(draw, ctx):
             step = dict(op=op, arg=list(spec), normalized=True if spec[0] != "lin" else draw(st.booleans()))
         else:
             step = dict(op=op, arg=draw(fl(0.0, 40.0)), seed=draw(st.integers(0, 2 ** 31 - 1)))
-        step["tf"] = "default" if i == n - 1 else draw(tf)
+        step["tf"] = draw(st.sampled_from(["default", "default", "new"] if not is_long else ["default"])) \
+            if i == n - 1 else draw(tf)
+        if step["tf"] == "pos":
+            step["tf"] = ["pos", draw(st.one_of(positive_s(), st.sampled_from([1.0, 10.0, 100.0, 0.5])))]
         steps.append(step)
     case["steps"] = steps
-    case["tf0"] = draw(st.sampled_from(["default", "default", 0, 0.0, None]))
+    case["tf0"] = draw(st.sampled_from(["default", "default", 0, 0.0, None] + ([] if is_long else ["pos", "new"])))
+    if case["tf0"] == "pos":
+        case["tf0"] = ["pos", draw(st.one_of(positive_s(), st.sampled_from([1.0, 10.0, 100.0])))]
     return case
 
 
@@ -726,21 +733,38 @@ def _history(ctx, case):
     w = Weaver(xi, yi)
     snaps = []
     smooths = []
+    positives = []
+    flags = set()
     is_long = "long" in case
     energy = case["long"]["E0"] if is_long else None      # noise energy of a long series, followed through the steps
 
     def snapshot(tf, label):
         # only Python floats are kept: no reference to any array of the Weaver survives this call, so that the
         # arrays it replaces later are really released (an id()-keyed cache depends on that)
-        f = w.to_function() if tf == "default" else w.to_function(tf)
-        if not callable(f):
-            raise Violation(f"{label}: to_function returned {type(f).__name__}, not a callable")
         xl = [float(v) for v in w.get()[0]]
         yl = [float(v) for v in w.get()[1]]
+        if isinstance(tf, list):
+            # to_function(s > 0): only the smoothing condition applies to it - and it must not change what a later
+            # default call, on this or any other Weaver, returns
+            f = w.to_function(tf[1])
+            if not callable(f):
+                raise Violation(f"{label}: to_function returned {type(f).__name__}, not a callable")
+            positives.append((label.replace("to_function()", f"to_function({tf[1]!r})"), tf[1], yl,
+                              np.asarray(f(xl), dtype=float).tolist()))
+            return
+        if tf == "new":
+            f = Weaver(np.array(xl), np.array(yl)).to_function()
+            label = label.replace("to_function()", "to_function() of a new Weaver on copies of the samples")
+        else:
+            f = w.to_function() if tf == "default" else w.to_function(tf)
+        if not callable(f):
+            raise Violation(f"{label}: to_function returned {type(f).__name__}, not a callable")
         probes = [xl[0] + t * (xl[-1] - xl[0]) for t in PROBE_T]
         vs, vp = f(xl), f(probes)
-        snaps.append((label, xl, yl, probes, np.asarray(vs, dtype=float).tolist(),
-                      np.asarray(vp, dtype=float).tolist()))
+        snaps.append((label + (" [after an earlier to_function(s > 0)]" if positives else ""), xl, yl, probes,
+                      np.asarray(vs, dtype=float).tolist(), np.asarray(vp, dtype=float).tolist()))
+        if positives:
+            flags.add("default to_function after to_function(s>0): " + ("new object" if tf == "new" else "same object"))
 
     with Fitpack() as fp:
         if case["tf0"] is not None:
@@ -796,6 +820,10 @@ def _history(ctx, case):
     if fp.warned:
         ctx.count("discarded_fitpack")
         return
+    for label, s_val, yl, vs in positives:
+        if len(vs) != len(yl) or not all(math.isfinite(v) for v in vs):
+            raise Violation(f"{label}: the spline returns values of the wrong shape or non-finite values")
+        check_condition(vs, yl, s_val, label + " evaluated at the samples")
     for label, s_val, xb, yb, xa, ya, direct in smooths:
         if xa != xb:
             raise Violation(f"{label} changed x or the length")
@@ -818,6 +846,9 @@ def _history(ctx, case):
                     f"{label} differs between the samples from the spline of a fresh Weaver holding the same samples")
     cls = common_classes(case)
     cls |= {"op:" + o for o in done}
+    cls |= flags
+    if positives:
+        cls.add("to_function(s>0) calls")
     cls.add(f"to_function-calls:{min(len(snaps), 5)}{'+' if len(snaps) >= 5 else ''}")
     cls.add(f"judged-smooth-steps:{min(len(smooths), 3)}{'+' if len(smooths) >= 3 else ''}")
     seen = set()
@@ -860,9 +891,10 @@ def _history(ctx, case):
             if last is not None and y_only >= 2:
                 cls.add("calls-separated-by->=2-y-replacements")
             last, y_only = i, 0
-    if any(s_["tf"] in (0, 0.0) and s_["tf"] != "default" for s_ in case["steps"]) or case["tf0"] in (0, 0.0):
+    if any(s_["tf"] in (0, 0.0) and not isinstance(s_["tf"], (str, list)) for s_ in case["steps"]) \
+            or (case["tf0"] in (0, 0.0) and not isinstance(case["tf0"], (str, list))):
         cls.add("explicit-s=0-call")
-    ctx.record(case, cls, nontrivial=len(snaps) + len(smooths) >= 2)
+    ctx.record(case, cls, nontrivial=len(snaps) + len(smooths) + len(positives) >= 2)
 
 
 SUBCHECKS = [
